@@ -14,7 +14,7 @@ PROP = dict(
         "(anything else is outside the model and checked only for 'no panic')",
         "programs of depth <= 4; closure-call depth <= 60",
     ],
-    level_text="Proof (layer 1, compile/evaluate): 31 Lean theorems about an executable transliteration of syntax/compile.go's decisions "
+    level_text="Proof (layer 1, compile/evaluate): 33 Lean theorems about an executable transliteration of syntax/compile.go's decisions "
                "(compileLet/Arrow/Function, NewCallExpr, ExprAsFunction, ExprExpr for parentheses, literal folding, cond) and of the Eval "
                "methods over values + closures. A simulation theorem (`sim`) over the congruence closure of the documented rewrites gives "
                "`rewrite_inert`: programs related by let = arrow = call, parentheses (also around a function literal operand), "
